@@ -13,6 +13,8 @@ THEOREMS = [
     "Vinegar.C09.decodeFields_encode",
     "Vinegar.C09.decodeFields_sound",
     "Vinegar.C09.requestPort_reply_le_one",
+    "Vinegar.C09.requestPort_transfer_only_rfc",
+    "Vinegar.C09.decodeFields_rfcShape",
     "Vinegar.C09.requestPort_non_rrq",
     "Vinegar.C09.c09Check_runTransfer",
     "Vinegar.C09.peer_error_silent",
